@@ -222,7 +222,7 @@ def tag_of(c):
     return t + {"on": "", "off": "-bndoff", "mod": "-modified"}[v]
 
 
-def attempt(ctx, clause, site, tag, fn):
+def attempt(ctx, clause, site, tag, fn, strict_selfcheck=False):
     """Run fn(); an exception of the real code is a violation of `clause` (witness class carries the exception type)."""
     import warnings
     try:
@@ -236,6 +236,8 @@ def attempt(ctx, clause, site, tag, fn):
     except Exception as e:  # noqa
         import traceback
         wc = "%s-raises" % tag if tag.endswith(("-bndoff", "-modified")) else "%s-raises-%s" % (tag, type(e).__name__)
+        if strict_selfcheck and isinstance(e, AssertionError):
+            wc = "%s-selfcheck-strict" % tag
         ctx.check(clause, False, site, wc, "%s: %s\n%s" % (type(e).__name__, e, traceback.format_exc(limit=5)))
         return False, None
 
@@ -252,7 +254,11 @@ def run_case(ctx, case):
         g = make_grid(c, list(a), list(b))
         g.set_grid([list(p) for p in pts], [list(l) for l in lvs])
         return g
-    ok, grid = attempt(ctx, "B.total", site, tag, build)
+    # GlobalSimpsonGrid asserts its own moments with a relative tolerance of 1e-14: this fires for a zero first moment (a == -b) and,
+    # through rounding, sporadically on non-dyadic / deep random grids (known defect, own class).  On the enumerated dyadic trees of
+    # the other intervals it never fires on the unchanged tree, so there an AssertionError keeps its own witness class.
+    strict = fam == "simpson" and var == "on" and (a[0] == -b[0] or case.get("kind") != "dyadic")
+    ok, grid = attempt(ctx, "B.total", site, tag, build, strict_selfcheck=strict)
     if not ok:
         return
     # ---- shape
